@@ -1,6 +1,8 @@
 package main
 
 import (
+	"strings"
+	"unicode/utf8"
 	"fmt"
 	"math"
 	"sort"
@@ -123,8 +125,20 @@ func (r *R) editOnce(t *V, o *TreeOpts) (*V, string) {
 	c := t.clone()
 	var ns []*V
 	c.nodes(&ns)
+	if r.chance(0.12) { // aim at a string that is not valid UTF-8, if the tree has one
+		for _, k := range r.Perm(len(ns)) {
+			if m := ns[k]; m.K == KStr && !utf8.ValidString(m.S) {
+				if r.chance(0.5) && strings.HasSuffix(m.S, "\xe9") {
+					m.S = m.S[:len(m.S)-1] + "\xe8"
+					return c, "edit:ill-formed-byte-changed"
+				}
+				m.S = strings.ToValidUTF8(m.S, "\uFFFD")
+				return c, "edit:ill-formed-bytes->U+FFFD"
+			}
+		}
+	}
 	n := ns[r.Intn(len(ns))]
-	switch r.Intn(9) {
+	switch r.Intn(10) {
 	case 0: // change one scalar's kind, keeping "the same" value where that makes sense
 		switch n.K {
 		case KInt:
@@ -237,6 +251,16 @@ func (r *R) editOnce(t *V, o *TreeOpts) (*V, string) {
 			return c, "edit:elements-swapped"
 		}
 		return c, "edit:none"
+	case 8: // a string that is not valid UTF-8 against its "printed" form (ill-formed bytes replaced by U+FFFD): different strings
+		if n.K == KStr && !utf8.ValidString(n.S) {
+			n.S = strings.ToValidUTF8(n.S, "\uFFFD")
+			return c, "edit:ill-formed-bytes->U+FFFD"
+		}
+		if n.K == KStr && strings.HasSuffix(n.S, "\xe9") {
+			n.S = n.S[:len(n.S)-1] + "\xe8"
+			return c, "edit:ill-formed-byte-changed"
+		}
+		return c, "edit:identical-copy"
 	default:
 		return c, "edit:identical-copy"
 	}
